@@ -318,7 +318,7 @@ fn zip_wrapped(f: impl Fn() -> Result<CaseInfo, String>) -> Result<CaseInfo, Str
 }
 
 macro_rules! for_ns {
-    ([$($n:ty),*], $N:ident => $body:block) => { $( { type $N = $n; $body } )* };
+    ([$($n:ty),*], $N:ident => $body:block) => { $( { type $N = $n; if <$N as generic_array::typenum::Unsigned>::USIZE <= vcommon::maxn() { $body } } )* };
 }
 
 pub fn run(ctx: &mut Ctx) {
